@@ -1,0 +1,23 @@
+//go:build verif
+
+package fr
+
+// Verification hooks (build tag verif): the portable generic routines and the ADX switch,
+// so that every arithmetic code path can be exercised from one binary.
+
+func VerifMulGeneric(z, x, y *Element)       { _mulGeneric(z, x, y) }
+func VerifFromMontGeneric(z *Element)        { _fromMontGeneric(z) }
+func VerifAddGeneric(z, x, y *Element)       { _addGeneric(z, x, y) }
+func VerifDoubleGeneric(z, x *Element)       { _doubleGeneric(z, x) }
+func VerifSubGeneric(z, x, y *Element)       { _subGeneric(z, x, y) }
+func VerifNegGeneric(z, x *Element)          { _negGeneric(z, x) }
+func VerifReduceGeneric(z *Element)          { _reduceGeneric(z) }
+func VerifMulByConstant(z *Element, c uint8) { mulByConstant(z, c) }
+func VerifButterflyGeneric(a, b *Element)    { _butterflyGeneric(a, b) }
+
+// VerifSetSupportAdx sets the ADX switch and returns the previous value.
+func VerifSetSupportAdx(v bool) bool {
+	old := supportAdx
+	supportAdx = v
+	return old
+}
